@@ -83,7 +83,10 @@ CLAIMED["C07"] = dict(
     "Proof: C01's distance theorem gives an edit script for whatever the aligner reports; its placement is one of four shapes; error_lengths and the back/front overlap loops are characterised (every prefix length a has a set whose k-mers are the E+1 chunks of a piece "
     "no longer than a with E >= thr a and a window >= a (+E with indels)); pigeonhole over the script (ed_split, ed_pigeon) leaves a chunk verbatim inside the window; remove_redundant_kmers only widens windows; a read inside the adapter takes the short-read bypass; "
     "the aligner's character comparison implies the k-mer finder's for all ASCII pairs and flag sets (vm_compute over 127 x 127 x 8). Also: prefilter only rejects, comparers bypass it, chunks partition. "
-    "Tie to the code: correspondence (search tables as sets, kmers_present, prefiltered match_to: model = implementation) and the with/without-prefilter oracle run on the implementation (random + exhaustive small scope).",
+    "The bit level of _kmer_finder.pyx is modelled too (Model/ShiftAnd.v: greedy packing of an entry's k-mers into 64-bit words, init/found/character masks, R = ((R << 1 mod 2^64) | init) & mask[c]) and proved to compute "
+    "the occurrence predicate the k-mer model uses (C07_shift_and_correct: bit off_w + i of the state is set iff the first i+1 characters of word w match the text ending here; the bit carried from one word into the next is absorbed by the init mask; "
+    "C07_packed_search_correct, C07_kmers_present_bit_level). "
+    "Tie to the code: correspondence (search tables as sets, kmers_present at both levels of the model, prefiltered match_to: model = implementation) and the with/without-prefilter oracle run on the implementation (random + exhaustive small scope).",
     technique="Coq proof (full statement: pigeonhole over edit scripts, characterisation of error_lengths / overlap search sets / minimize / windows) + extracted-model differential correspondence (tables, kmers_present, match_to) + real-vs-mock-finder oracle on the implementation",
     design="6/C07",
     note=TB + " The shift-and bit machinery of _kmer_finder.pyx below 'windowed multi-pattern occurrence' is not modelled; windows extending past the read end (out-of-bounds read in the compiled code, "
